@@ -62,6 +62,14 @@ def slice_get_facts(X, possible):
     """`s.get(i)` is Some exactly when the index / range is in bounds"""
     S, idx = X[2][0], unref(X[2][1])
     L = ("call", "len", (S,))
+    # a prefix view `base[..n]` has length n (the indexing panics otherwise)
+    v = S
+    while v[0] in ("ref", "deref", "inner"):
+        v = v[1]
+    if v[0] == "call" and v[1] == "index" and len(v[2]) == 2:
+        rg = unref(v[2][1])
+        if rg[0] == "agg" and rg[1].endswith("ops::RangeTo::RangeTo") and len(rg[2]) == 1:
+            L = unref(rg[2][0])
     out = []
     if possible == {"Some"}:
         if idx[0] == "agg" and idx[1].endswith("ops::RangeFrom::RangeFrom"):
@@ -318,6 +326,9 @@ def switch_facts(ev, ctx, bb, target_vals, is_otherwise, listed_vals):
                 out.append(norm_rel(m[p], a, b))
         elif X[0] == "call" and X[1] == "Try::branch" and possible in ({"Continue"}, {"Break"}):
             out.append(("is_some", unref(X[2][0]), possible == {"Continue"}))
+            inner = unref(X[2][0])
+            if inner[0] == "call" and inner[1] == "slice_get" and len(inner[2]) == 2:
+                out.extend(slice_get_facts(inner, {"Some"} if possible == {"Continue"} else {"None"}))
         else:
             if possible == {"Some"}:
                 out.append(("is_some", X, True))
